@@ -181,10 +181,12 @@ static auto valid_line(std::string const& ty, Line const& l, std::size_t cap, st
         if (ty == "ipv") return op == "copy_ctor" || op == "move_ctor";
         return true;
     }
-    bool push  = op == "push" || op == "push_rv" || op == "emplace_back";
+    // `…_mv`: the argument is std::move(t) of a named object t that is printed after the call (` arg=`)
+    bool push  = op == "push" || op == "push_rv" || op == "emplace_back" || op == "push_mv" || op == "emplace_back_mv";
     bool ptop  = op == "push_top" || op == "emplace_top";
-    bool tryp  = op == "try_push" || op == "try_push_rv" || op == "try_emplace";
-    bool unch  = op == "unchecked_push" || op == "unchecked_push_rv" || op == "unchecked_emplace";
+    bool tryp  = op == "try_push" || op == "try_push_rv" || op == "try_emplace" || op == "try_push_mv" || op == "try_emplace_mv";
+    bool unch  = op == "unchecked_push" || op == "unchecked_push_rv" || op == "unchecked_emplace" || op == "unchecked_push_mv"
+             || op == "unchecked_emplace_mv";
     if (op == "dump") return true;
     if (ty == "stk") {
         if (push) return has_nat("x") && n < cap;
@@ -214,7 +216,7 @@ static auto valid_line(std::string const& ty, Line const& l, std::size_t cap, st
             && n + nat("n") <= cap;
     if (op == "resize_val_alias") return has_nat("i") && has_nat("n") && nat("i") < n && nat("n") <= cap;
     if (op == "pop") return n > 0;
-    if (op == "insert" || op == "insert_rv" || op == "emplace")
+    if (op == "insert" || op == "insert_rv" || op == "emplace" || op == "insert_mv" || op == "emplace_mv")
         return has_nat("x") && has_nat("pos") && n < cap && nat("pos") <= n;
     if (op == "insert_fill")
         return has_nat("x") && has_nat("pos") && has_nat("n") && nat("pos") <= n && nat("n") <= cap && n + nat("n") <= cap;
@@ -244,7 +246,8 @@ static auto state_free(std::string const& op) -> bool
 {
     return op == "resize" || op == "resize_val" || op == "assign_fill" || op == "assign_range" || op == "clear"
         || op == "ctor_n" || op == "ctor_n_val" || op == "ctor_range" || op == "erase_val" || op == "erase_if"
-        || op == "try_push" || op == "try_push_rv" || op == "try_emplace" || op == "dump";
+        || op == "try_push" || op == "try_push_rv" || op == "try_emplace" || op == "try_push_mv" || op == "try_emplace_mv"
+        || op == "dump";
 }
 static auto respecifies(std::string const& op) -> bool
 {
@@ -440,6 +443,29 @@ static auto seq_op(C& c, Line const& l, bool& handled) -> std::string
         c.resize(static_cast<std::size_t>(l.i("n")), elem());
         return "ok";
     }
+    // the argument is an rvalue of an object the caller still owns: what it shows after the call is part of the result
+    // (moved from iff an element has been constructed from it)
+    auto arg = [](E const& t) { return " arg=" + std::to_string(val(t)); };
+    if (op == "push_mv") {
+        E t = x();
+        c.push_back(std::move(t));
+        return "ok" + arg(t);
+    }
+    if (op == "emplace_back_mv") {
+        E t = x();
+        c.emplace_back(std::move(t));
+        return "ok" + arg(t);
+    }
+    if (op == "insert_mv") {
+        E t    = x();
+        auto r = it_off(c.insert(pos(), std::move(t)));
+        return r + arg(t);
+    }
+    if (op == "emplace_mv") {
+        E t    = x();
+        auto r = it_off(c.emplace(pos(), std::move(t)));
+        return r + arg(t);
+    }
     handled = false;
     return "";
 }
@@ -628,6 +654,16 @@ struct StkRunner final : Runner {
             c.emplace(c.top());
             return "ok";
         }
+        if (op == "push_mv") {
+            E t = mk<E>(l.i("x"));
+            c.push(std::move(t));
+            return "ok arg=" + std::to_string(val(t));
+        }
+        if (op == "emplace_back_mv") {
+            E t = mk<E>(l.i("x"));
+            c.emplace(std::move(t));
+            return "ok arg=" + std::to_string(val(t));
+        }
         if (op == "dump") return "ok";
         return "bad-op";
     }
@@ -726,6 +762,29 @@ struct IpvRunner final : Runner {
         }
         if (op == "unchecked_push_rv") return ref(c.unchecked_push_back(mk<E>(l.i("x"))));
         if (op == "unchecked_emplace") return ref(c.unchecked_emplace_back(static_cast<int>(l.i("x"))));
+        // the argument is an rvalue of an object the caller still owns: on a full vector try_* must leave it alone
+        // ([inplace.vector.modifiers]: "Otherwise, there are no effects")
+        auto arg = [](E const& t) { return " arg=" + std::to_string(val(t)); };
+        if (op == "try_push_mv") {
+            E t    = mk<E>(l.i("x"));
+            auto r = ptr(c.try_push_back(std::move(t)));
+            return r + arg(t);
+        }
+        if (op == "try_emplace_mv") {
+            E t    = mk<E>(l.i("x"));
+            auto r = ptr(c.try_emplace_back(std::move(t)));
+            return r + arg(t);
+        }
+        if (op == "unchecked_push_mv") {
+            E t    = mk<E>(l.i("x"));
+            auto r = ref(c.unchecked_push_back(std::move(t)));
+            return r + arg(t);
+        }
+        if (op == "unchecked_emplace_mv") {
+            E t    = mk<E>(l.i("x"));
+            auto r = ref(c.unchecked_emplace_back(std::move(t)));
+            return r + arg(t);
+        }
         auto elem = [&]() -> E const& { return std::as_const(c)[static_cast<std::size_t>(l.i("i"))]; };
         if (op == "try_push_alias") return ptr(c.try_push_back(elem()));
         if (op == "try_emplace_alias") return ptr(c.try_emplace_back(elem()));
@@ -764,6 +823,15 @@ struct IpvRunner final : Runner {
         if (op == "unchecked_push" || op == "unchecked_push_rv" || op == "unchecked_emplace") {
             c.push_back(mk<E>(l.i("x")));
             return "ref=" + std::to_string(val(c.back()));
+        }
+        if (op == "try_push_mv" || op == "try_emplace_mv" || op == "unchecked_push_mv" || op == "unchecked_emplace_mv") {
+            // std::vector + capacity test as stand-in for std::inplace_vector: nothing touches t when full
+            E t        = mk<E>(l.i("x"));
+            bool tryop = op[0] == 't';
+            if (tryop && c.size() == Cap) return "null arg=" + std::to_string(val(t));
+            if (op == "try_push_mv" || op == "unchecked_push_mv") c.push_back(std::move(t));
+            else c.emplace_back(std::move(t));
+            return (tryop ? "ptr=" : "ref=") + std::to_string(val(c.back())) + " arg=" + std::to_string(val(t));
         }
         if (op == "try_push_alias" || op == "try_emplace_alias") {
             if (c.size() == Cap) return "null";
@@ -867,6 +935,13 @@ static auto has_seq_member(std::string const& m) -> int
     if (m == "unchecked_push") return requires(C& c, E const& v) { c.unchecked_push_back(v); };
     if (m == "unchecked_push_rv") return requires(C& c, E&& v) { c.unchecked_push_back(std::move(v)); };
     if (m == "unchecked_emplace") return requires(C& c) { c.unchecked_emplace_back(1); };
+    // the two push overloads exist as functions of their own ([inplace.vector.overview]: try_push_back(const T&) and
+    // try_push_back(T&&), likewise unchecked_push_back): one by-value overload would accept the same calls, but consume an
+    // rvalue before the capacity test
+    if (m == "try_push_cref_sig") return requires { static_cast<E* (C::*)(E const&)>(&C::try_push_back); };
+    if (m == "try_push_rv_sig") return requires { static_cast<E* (C::*)(E&&)>(&C::try_push_back); };
+    if (m == "unchecked_push_cref_sig") return requires { static_cast<E& (C::*)(E const&)>(&C::unchecked_push_back); };
+    if (m == "unchecked_push_rv_sig") return requires { static_cast<E& (C::*)(E&&)>(&C::unchecked_push_back); };
     if (m == "dump") return requires(C const& c) { c.size(); c.empty(); c.begin(); c.end(); };
     return -1;
 }
@@ -875,7 +950,7 @@ static char const* const ALL_MEMBERS[] = {"push", "push_rv", "emplace_back", "po
     "insert_fill", "insert_range", "move_insert", "erase", "erase_range", "resize", "resize_val", "assign_fill", "assign_range",
     "clear", "ctor_n", "ctor_n_val", "ctor_range", "copy_ctor", "move_ctor", "copy_assign", "move_assign", "swap", "swap_free",
     "erase_val", "erase_if", "cmp", "try_push", "try_push_rv", "try_emplace", "unchecked_push", "unchecked_push_rv",
-    "unchecked_emplace", "dump"};
+    "unchecked_emplace", "try_push_cref_sig", "try_push_rv_sig", "unchecked_push_cref_sig", "unchecked_push_rv_sig", "dump"};
 
 template <typename C, typename E>
 static auto has_stack_member(std::string const& m) -> int
